@@ -15,7 +15,8 @@ CHECKS = {
             'with a 15-line first-match-wins model; held on the histories observed, nothing more.',
             'Trusted: the sequential model in vf/props/c16.py; CPython.', 'DESIGN.md §2 C16'),
     'C18': ('runtime monitoring: escape monitor around the real emulate_cycle() over all Thumb-16 words x IT positions, '
-            'every decoder path (bit-provenance tracer), random words and random programs',
+            'every decoder path (bit-provenance tracer), random words, random programs, hostile MMU set-ups and a write-then-read '
+            'sweep of the cp14/cp15 register space on long-lived instances with a register-object type audit',
             'Every step of the workload is observed for an escaping host exception; exhaustive for the 2^16 Thumb-16 '
             'words x 3 IT positions and for at-least-one-word-per-feasible-decoder-path, sampled elsewhere.',
             'Trusted: the path enumeration of vf/trace_decode.py (partition checked by model counting); valid-state '
@@ -41,10 +42,11 @@ CHECKS = {
             'are UNPREDICTABLE inside IT blocks.', 'DESIGN.md §2 C05'),
     'C10': ('runtime monitoring: step-boundary range sweep over the whole register file on every decoder path with '
             'code at the edges of the address space; unique-value API histories audited after every operation against '
-            'a sequential bank model',
+            'a sequential bank model; bank-naming instructions (LDM/STM user registers, SRS/RFE, CPS, MSR, exception returns) in '
+            'lock-step with an independent reference step',
             'Range invariant observed after ~300k real steps (quick) incl. all Thumb-16 words; banking audited over '
             '~200k API operations with all bank cells re-read after each.',
-            'Trusted: the bank table in vf/props/c10.py (ARM ARM B1.3.2).', 'DESIGN.md §2 C10'),
+            'Trusted: the bank table in vf/props/c10.py (ARM ARM B1.3.2); vf/ref for the instruction part.', 'DESIGN.md §2 C10, §10.5'),
     'C17': ('runtime monitoring: direct calls of the real helpers and field properties compared with reference '
             'primitives written from the pseudocode and with a table of architectural bit positions',
             'Exhaustive for widths 1..8, all 2x4096 modified immediates, all (type, imm5) and every value of every field '
@@ -98,9 +100,9 @@ CHECKS = {
     'C14': ('runtime monitoring: translate_address() on generated MPU region sets vs an independent region matcher (decision, fault kind, DFSR/DFAR) + lock-step of load/store families with the MPU on',
             'Boundary-biased addresses around every generated region/subregion edge; aborts at any position of multi-word transfers compared incl. abort bookkeeping.',
             'Trusted: vf/ref/mem.py translate_p/check_permission.', 'DESIGN.md §2 C14'),
-    'C15': ('runtime monitoring: translate_address() on generated short-descriptor page tables written into RAM vs an independent walker + lock-step of loads/stores with the MMU on',
-            'All descriptor types, TTBCR.N, PD0/PD1, DACR, AFE, TRE, EE, FCSE sampled; physical address or fault kind/level/domain/DFAR compared. Long-descriptor and stage-2 walks are not judged.',
-            'Trusted: vf/ref/mem.py walk_sd/translate_v.', 'DESIGN.md §2 C15'),
+    'C15': ('runtime monitoring: translate_address() on generated short-descriptor and long-descriptor (stage 1, PL1&0 and Hyp regimes) page tables written into RAM vs an independent walker + lock-step of loads/stores with the MMU on (short- and long-descriptor layouts)',
+            'All descriptor types, TTBCR.N, PD0/PD1, DACR, AFE, TRE, EE, FCSE; T0SZ/T1SZ, EPD0/1, 1-3 levels, hierarchical table bits, AF, AP[2:1], MAIR sampled; physical address or fault kind/level/domain/DFAR compared. Stage-2 walks are not judged.',
+            'Trusted: vf/ref/mem.py walk_sd/walk_ld_s1/translate_v.', 'DESIGN.md §2 C15, §10.2'),
 }
 
 NOT_APPLICABLE = {}
